@@ -135,3 +135,18 @@ package harfbuzz
 //@   ensures [parallel-arrays] len(b.Pos) == len(b.Info) && len(b.outInfo) == 0 && !b.haveOutput
 //@   ensures [info-kept] sameslice(b.Info, old(b.Info))
 //@   modifies b.haveOutput; b.outInfo; b.Pos
+//
+// ---------------------------------------------------------------------------------------------
+// Property C13, state "Buffer.planCache[Face]: shape plans matched on props+features only". A cached plan is reused
+// only if it was compiled for the same segment properties (direction, script AND language) and the same user
+// features (tag, value, and whether the feature is global).
+//@ spec featuresMatch(a []Feature, b []Feature) bool = len(a) == len(b) && forall(i, 0, len(a), a[i].Tag == b[i].Tag && a[i].Value == b[i].Value && ((a[i].Start == FeatureGlobalStart && a[i].End == FeatureGlobalEnd) == (b[i].Start == FeatureGlobalStart && b[i].End == FeatureGlobalEnd)))
+//@ func shapePlan.userFeaturesMatch C13
+//@   mode bv
+//@   ensures [exact] result == featuresMatch(plan.userFeatures, other.userFeatures)
+//@   modifies nothing
+//@   loop 1 invariant [so-far] len(plan.userFeatures) == len(other.userFeatures) && forall(k, 0, rangeindex+1, plan.userFeatures[k].Tag == other.userFeatures[k].Tag && plan.userFeatures[k].Value == other.userFeatures[k].Value && ((plan.userFeatures[k].Start == FeatureGlobalStart && plan.userFeatures[k].End == FeatureGlobalEnd) == (other.userFeatures[k].Start == FeatureGlobalStart && other.userFeatures[k].End == FeatureGlobalEnd)))
+//@ func shapePlan.equal C13
+//@   mode bv
+//@   ensures [same-properties-and-features] result == (plan.props.Direction == other.props.Direction && plan.props.Script == other.props.Script && plan.props.Language == other.props.Language && featuresMatch(plan.userFeatures, other.userFeatures))
+//@   modifies nothing
